@@ -1683,9 +1683,14 @@ where
                 );
                 Ok(false)
             } else {
-                self.change_identity(new_identity.clone(), &mut runtime)?;
+                // The identity has changed by now, even if telling the
+                // cluster about it failed (an encode error while gossiping):
+                // always let the user know before reporting the error
+                let changed = self.change_identity(new_identity.clone(), &mut runtime);
 
                 runtime.notify(Notification::Rejoin(&new_identity));
+
+                changed?;
 
                 Ok(true)
             }
